@@ -238,16 +238,25 @@ func generate(h *hist, r *lib.Rand, idx int) {
 				need = stakeFX
 			}
 			amt := need + int64(r.Intn(3000))
+			var tenths int64
 			if r.Chance(15) && need > 0 {
 				amt = need - 1 - int64(r.Intn(100)) // not enough to cover the slash amount
 			}
 			if r.Chance(8) {
 				amt += 95_000 // above the maximum
 			}
-			if amt <= 0 {
+			if r.Chance(30) && rec.slash > 0 {
+				// exactly the slash amount (stake*0.8*times, capped at the stake), to the tenth of an FX: nothing is delegated
+				t := stakeFX * 8 * rec.slash
+				if t > stakeFX*10 {
+					t = stakeFX * 10
+				}
+				amt, tenths = t/10, t%10
+			}
+			if amt <= 0 && tenths == 0 {
 				amt = 1
 			}
-			h.apply(Op{Kind: "add", Oracle: id, Stake: amt})
+			h.apply(Op{Kind: "add", Oracle: id, Stake: amt, Tenths: tenths})
 		case roll < 84: // ---- slash ----
 			var l []int
 			if len(online) > 0 {
@@ -348,7 +357,34 @@ func generate(h *hist, r *lib.Rand, idx int) {
 					conf = append(conf, i)
 				}
 			}
-			h.apply(Op{Kind: "block", List: conf})
+			o := Op{Kind: "block", List: conf}
+			if r.Chance(25) {
+				o.Days = 22 // beyond the unbonding period: removed oracles can now unbond
+			}
+			h.apply(o)
+		}
+		// an oracle leaves for good and (perhaps) comes back: removal, maturity, unbond — re-approval and re-bond
+		// are left to the ordinary governance / bond operations
+		if r.Chance(2) && len(online) > 2 {
+			id := online[r.Pick(len(online))]
+			var nl []int
+			for _, x := range proposal {
+				if x != id {
+					nl = append(nl, x)
+				}
+			}
+			if ok, _ := h.apply(Op{Kind: "gov", List: nl}); ok {
+				proposal = nl
+				h.apply(Op{Kind: "block", Days: 22})
+				h.apply(Op{Kind: "unbond", Oracle: id})
+				if r.Chance(60) {
+					nl2 := append(append([]int{}, proposal...), id)
+					if ok, _ := h.apply(Op{Kind: "gov", List: nl2}); ok {
+						proposal = nl2
+						h.apply(Op{Kind: "bond", Oracle: id, Bridger: id, Ext: id, Stake: stakeDraw(r)})
+					}
+				}
+			}
 		}
 	}
 }
@@ -381,6 +417,7 @@ func scripted() []scenario {
 				{Kind: "bond", Oracle: 3, Bridger: 3, Ext: 3, Stake: 25_000},
 				vote(0, 1, "fx", 0), vote(1, 1, "fx", 0),
 				{Kind: "gov", List: []int{1, 2, 3}},
+				{Kind: "block", Days: 22}, // the unbonding of oracle 0's stake matures
 				{Kind: "unbond", Oracle: 0},
 				{Kind: "gov", List: []int{0, 1, 2, 3}},
 				{Kind: "bond", Oracle: 0, Bridger: 0, Ext: 0, Stake: 25_000},
@@ -388,11 +425,14 @@ func scripted() []scenario {
 			},
 			Check: func(h *hist, rep *lib.Report) {
 				ob := h.observe()
-				if ob.lastObs == 1 && len(ob.atts) == 1 && len(ob.atts[0].votes) == 3 {
-					note(rep, "witness replayed on the real keeper: after governance removal + unbond + re-bond, oracle 0's second vote is counted again; "+
-						"event nonce 1 took effect with votes [0 1 0] = 50% of distinct power (recorded total 1000, threshold 660)")
-				} else {
-					note(rep, fmt.Sprintf("re-bond witness did NOT reproduce on this tree: lastObs=%d atts=%v", ob.lastObs, ob.atts))
+				switch {
+				case ob.lastObs == 1 && len(ob.atts) == 1 && len(ob.atts[0].votes) == 3:
+					note(rep, "C01_revote_refuted witness replayed on the real keeper: after governance removal, maturity, unbond, re-approval and re-bond, oracle 0's second vote "+
+						"is counted again; event nonce 1 took effect with votes [0 1 0] = 50% of distinct power (recorded total 1000, threshold 660)")
+				case ob.lastObs == 0 && len(ob.atts) == 1 && len(ob.atts[0].votes) == 2 && !codeFacts.UnbondDeletesCursor:
+					note(rep, "re-bond history on this tree (UnbondedOracle keeps the cursor): the second vote of the returning oracle is refused, votes stay [0 1] (C01_revote_refused_when_fixed)")
+				default:
+					note(rep, fmt.Sprintf("re-bond history: unexpected outcome lastObs=%d atts=%v", ob.lastObs, ob.atts))
 				}
 			},
 		},
@@ -480,7 +520,7 @@ func scripted() []scenario {
 				{Kind: "bond", Oracle: 3, Bridger: 3, Ext: 3, Stake: 20_000},
 				{Kind: "bond", Oracle: 4, Bridger: 4, Ext: 4, Stake: 20_000},
 				vote(0, 1, "call", 0), vote(1, 1, "call", 0),
-				{Kind: "gov", List: []int{1, 2, 3, 4}}, {Kind: "unbond", Oracle: 0}, // oracle 0 leaves; its vote stays in the list
+				{Kind: "gov", List: []int{1, 2, 3, 4}}, {Kind: "block", Days: 22}, {Kind: "unbond", Oracle: 0}, // oracle 0 leaves; its vote stays in the list
 				{Kind: "slash", List: []int{4}},
 				vote(4, 1, "call", 0), // offline: refused
 				vote(2, 1, "call", 0), // 1+2 = 400 of recorded total 800 (refreshed by the slash): not enough (bar 528)
